@@ -135,41 +135,24 @@ Print Assumptions C17_names_distinct_positions.
 (* the parso tree of
      "def f(a):\r\n\tx = a + \\\r\n  1\r\x0c\xe9 = '''s\nt'''\ny = f"
    (CRLF, lone CR, LF, tab, form feed, continuation line, multi-line string, unicode
-   identifier, no final newline) *)
-Definition C17_ex_tree : tree :=
-  Node [Node [Leaf (L KOther (@nil N) [100;101;102] 1 0); Leaf (L (KName true true) [32] [102] 1 4);
-    Node [Leaf (L KOther (@nil N) [40] 1 5); Node [Leaf (L (KName true false) (@nil N) [97] 1 6)];
-          Leaf (L KOther (@nil N) [41] 1 7)];
-    Leaf (L KOther (@nil N) [58] 1 8);
-    Node [Leaf (L KNewline (@nil N) [13;10] 1 9);
-      Node [Node [Leaf (L (KName true false) [9] [120] 2 1); Leaf (L KOther [32] [61] 2 3);
-                  Node [Leaf (L (KName false false) [32] [97] 2 5); Leaf (L KOther [32] [43] 2 7);
-                        Leaf (L KOther [32;92;13;10;32;32] [49] 3 2)]];
-            Leaf (L KNewline (@nil N) [13] 3 3)];
-      Node [Node [Leaf (L (KName true false) [12] [233] 4 1); Leaf (L KOther [32] [61] 4 3);
-                  Leaf (L KOther [32] [39;39;39;115;10;116;39;39;39] 4 5)];
-            Leaf (L KNewline (@nil N) [10] 5 4)]]];
-   Node [Leaf (L (KName true true) (@nil N) [121] 6 0); Leaf (L KOther [32] [61] 6 2);
-         Leaf (L (KName false true) [32] [102] 6 4)];
-   Leaf (L KOther (@nil N) (@nil N) 6 5)].
-
+   identifier, no final newline) is [ex_tree] in Proofs/C17_Proofs.v *)
 Example C17_example_consistent :
-  consistent C17_ex_tree = true /\ names_wf C17_ex_tree = true /\
-  option_map solid (subtree C17_ex_tree [0%nat]) = Some true /\
-  get_code C17_ex_tree =
+  consistent ex_tree = true /\ names_wf ex_tree = true /\
+  option_map solid (subtree ex_tree [0%nat]) = Some true /\
+  get_code ex_tree =
     [100;101;102;32;102;40;97;41;58;13;10;9;120;32;61;32;97;32;43;32;92;13;10;32;32;49;13;12;233;
      32;61;32;39;39;39;115;10;116;39;39;39;10;121;32;61;32;102] /\
-  length (split_lines (get_code C17_ex_tree)) = 6%nat /\
-  map obs_name (script_names C17_ex_tree true true true) =
+  length (split_lines (get_code ex_tree)) = 6%nat /\
+  map obs_name (script_names ex_tree true true true) =
     [(1, 4, [102], true); (1, 6, [97], true); (2, 1, [120], true); (2, 5, [97], false);
      (4, 1, [233], true); (6, 0, [121], true); (6, 4, [102], false)] /\
-  map obs_name (script_names C17_ex_tree false true false) =
+  map obs_name (script_names ex_tree false true false) =
     [(1, 4, [102], true); (6, 0, [121], true)] /\
   (* the funcdef node is child 0; `x` inside it; function range ends before the last newline *)
-  def_range C17_ex_tree (Some [0%nat]) (L (KName true false) [9] [120] 2 1) true = Some ((1, 0), (5, 4)) /\
-  def_range C17_ex_tree (Some [0%nat]) (L (KName true false) [9] [120] 2 1) false = Some ((1, 0), (6, 0)) /\
-  get_line_code (split_lines (get_code C17_ex_tree)) 4 0 0 = [12;233;32;61;32;39;39;39;115;10] /\
-  get_line_code (split_lines (get_code C17_ex_tree)) 4 1 1 = [32;32;49;13;12;233;32;61;32;39;39;39;115;10;116;39;39;39;10].
+  def_range ex_tree (Some [0%nat]) (L (KName true false) [9] [120] 2 1) true = Some ((1, 0), (5, 4)) /\
+  def_range ex_tree (Some [0%nat]) (L (KName true false) [9] [120] 2 1) false = Some ((1, 0), (6, 0)) /\
+  get_line_code (split_lines (get_code ex_tree)) 4 0 0 = [12;233;32;61;32;39;39;39;115;10] /\
+  get_line_code (split_lines (get_code ex_tree)) 4 1 1 = [32;32;49;13;12;233;32;61;32;39;39;39;115;10;116;39;39;39;10].
 Proof. vm_compute. repeat split; reflexivity. Qed.
 
 (* A buffer that starts with U+FEFF: parso keeps the BOM in the first prefix but does not
